@@ -154,6 +154,8 @@ let retain_check line =
 let qtoks l = String.concat " " (List.map (fun s -> "?" ^ s) l)
 let sorted l = List.sort_uniq compare l
 
+(* cases keep their multiplicity (two arguments with the same label are two cases) *)
+let sorted_multi l = List.sort compare l
 let e2e_line cs leaves = "X " ^ qtoks cs ^ " #L " ^ qtoks cs ^ " #S " ^ qtoks leaves
 
 let e2e_m line =
@@ -164,7 +166,7 @@ let e2e_m line =
   let ts = parse_forest (nonempty (section secs "U")) in
   match select m ops ts with
   | Ok out ->
-    e2e_line (sorted (List.map unstr (cases out))) (sorted (List.map (fun (l, _) -> unstr l) (leaf_cases out)))
+    e2e_line (sorted_multi (List.map unstr (cases out))) (sorted (List.map (fun (l, _) -> unstr l) (leaf_cases out)))
   | Panic p -> "panic " ^ string_of_panic p
 
 let e2e_check line =
@@ -177,11 +179,15 @@ let e2e_check line =
     let m = make_oracle ops paths (nonempty (section isecs "T")) in
     let ts = parse_forest (nonempty (section isecs "U")) in
     let sel p = is_match_spec m ops p in
-    let want = sorted (List.map unstr (List.filter sel (cases ts))) in
+    let want = sorted_multi (List.map unstr (List.filter sel (cases ts))) in
     let want_leaves = sorted (List.filter_map (fun (l, cs) -> if List.exists sel cs then Some (unstr l) else None) (leaf_cases ts)) in
-    let got s = sorted (List.map tail1 (nonempty s)) in
-    let diff a b = String.concat "," (List.filter (fun x -> not (List.mem x b)) a) in
-    let ran = got ran and listed = got (section isecs "L") and leaves = got (section isecs "S") in
+    let got s = sorted (List.map tail1 (nonempty s)) and got_multi s = sorted_multi (List.map tail1 (nonempty s)) in
+    (* multiset difference *)
+    let diff a b =
+      let rec remove x = function [] -> None | y :: r -> if x = y then Some r else Option.map (fun r' -> y :: r') (remove x r) in
+      let (d, _) = List.fold_left (fun (acc, rest) x -> match remove x rest with Some r -> (acc, r) | None -> (x :: acc, rest)) ([], b) a in
+      String.concat "," (List.rev d) in
+    let ran = got_multi ran and listed = got_multi (section isecs "L") and leaves = got (section isecs "S") in
     if ran <> want then verdict false (Printf.sprintf "executed-but-not-selected=[%s]-selected-but-not-executed=[%s]" (diff ran want) (diff want ran))
     else if listed <> want then verdict false (Printf.sprintf "listed-but-not-selected=[%s]-selected-but-not-listed=[%s]" (diff listed want) (diff want listed))
     else if leaves <> want_leaves then verdict false (Printf.sprintf "list-entries-wrong:extra=[%s]-missing=[%s]" (diff leaves want_leaves) (diff want_leaves leaves))
